@@ -4,7 +4,7 @@ independent numpy evaluator, and build requests (shared by the C03 and C12 check
 An abstract program is a list of nodes in creation order; a node is a dict with a global "id":
 
   {"k": "arg",  "ty": {"e": "f32", "d": [2, "N", None]}}     spox.argument(Tensor(...))
-  {"k": "init", "ty": {...}}                                  an initializer Var (NOT an argument)
+  {"k": "init", "ty": {...}}                                  a Constant Var (NOT an argument)
   {"k": "junk", "v": 3}                                       not a Var at all (int / None / array)
   {"k": "lift", "a": id}                                      ReduceSum(Cast(a, f32)) -> f32 scalar
   {"k": "add"|"mul", "a": id, "b": id}   {"k": "neg", "a": id}   {"k": "const", "v": 2.0}
@@ -296,7 +296,6 @@ def to_objs(prog):
 def realize(prog, op=None):
     """Create the program with the real spox constructors. Returns {id: Var-or-junk}."""
     import spox
-    from spox._graph import initializer
 
     if op is None:
         import spox.opset.ai.onnx.v17 as op
@@ -315,7 +314,7 @@ def realize(prog, op=None):
             if k == "arg":
                 env[i] = spox.argument(tensor(nd["ty"]))
             elif k == "init":
-                env[i] = initializer(np.ones(2, dtype=ELEMS[nd["ty"]["e"]][0]))
+                env[i] = op.constant(value=np.ones(2, dtype=ELEMS[nd["ty"]["e"]][0]))  # a Var that is no argument
             elif k == "junk":
                 env[i] = nd["v"]
             elif k == "const":
